@@ -7,7 +7,7 @@ package composite
 // only when the last response's requirements equal those of the response before it (or the
 // response carries a fatal result); otherwise, after at most MaxRequirementsIterations+1
 // rounds, an error. Each further round is supplied exactly the resources the latest
-// requirements name.
+// requirements name, and the function is never called again after a response with a fatal result.
 
 import (
 	"context"
@@ -78,6 +78,9 @@ func TestVerifReplay(t *testing.T) {
 			desc := fmt.Sprintf("requirements per round=%v (last repeats) fatal result at round %d: %d calls", sc, fatalAt, calls)
 			if calls > int(MaxRequirementsIterations)+1 {
 				t.Fatalf("VERIF-REPRODUCED: %s, more than MaxRequirementsIterations+1", desc)
+			}
+			if fatalAt >= 0 && calls > fatalAt+1 {
+				t.Fatalf("VERIF-REPRODUCED: %s: the function was called again after its response carried a fatal result (that result is lost)", desc)
 			}
 			if err == nil {
 				last := calls - 1
